@@ -11,6 +11,7 @@ thread interleavings are sampled by the concurrent harness runs.  I/O errors and
 processes are outside the model.
 -/
 import Compass.Proofs.Sink
+import Compass.Proofs.SinkRead
 
 namespace Compass
 namespace C19
@@ -497,30 +498,62 @@ theorem first_run_starts_with_header (N : NumOps) (persist : Bool) (f : Format) 
 
 /-! ## 7. A JSON line determines the response -/
 
-/-- ASSUMPTION made explicit: `serde_json` reads back what it wrote (`from_str (to_string v) = v`; checked
-on every generated response by the harness, up to the last-place error of its default float parser).
-Under it every record of a newline-delimited JSON file parses back to the response that produced it, and
-the parsed records of a completed batch are, as a multiset, the batch. -/
+/-- ROUND TRIP, proved for the model's serializer (`Sink.compact`, = `serde_json::to_string` by the
+correspondence run) and the reader of `Model/SinkRead.lean`: a record parses back to the response that
+produced it.  Numbers come back as their lexemes (`eraseBits`: the double is a function of the lexeme). -/
+theorem json_record_parses_back (r : Json) (h : numsOk r = true) :
+    SinkRead.parse (rowOf anyNum (.json true) r) = some (SinkRead.eraseBits r) := by
+  simpa [rowOf, formatResponse] using SinkRead.parse_compact r h
+
+/-- hence the line determines the response: two responses with the same record are the same response -/
+theorem json_record_determines_response (a b : Json) (ha : numsOk a = true) (hb : numsOk b = true)
+    (h : compact a = compact b) : SinkRead.eraseBits a = SinkRead.eraseBits b := by
+  have h1 := SinkRead.parse_compact a ha
+  have h2 := SinkRead.parse_compact b hb
+  rw [h] at h1
+  rw [h1] at h2
+  exact Option.some.inj h2
+
+/-- for ANY reader that gives back what was written (up to a normal form `norm`), the records of a completed
+batch read back, as a multiset, to the batch — for every schedule and both persistence policies -/
 theorem json_lines_parse_back (N : NumOps) (persist : Bool) (sink : FileSink) (queues : List (List Json))
     (schedule : List Nat) (hp : sink.poisoned = false) (hf : sink.format = .json true)
-    (parse : List Char → Option Json) (hparse : ∀ j, parse (compact j) = some j)
+    (parse : List Char → Option Json) (norm : Json → Json)
+    (hparse : ∀ j ∈ queues.flatten, parse (compact j) = some (norm j))
     (hdone : ((Run.init sink queues).exec N persist schedule).done = true) :
     ∃ rows : List (List Char),
       ((Run.init sink queues).exec N persist schedule).sink.file = sink.file ++ rows.map record ∧
-      (rows.map parse).Perm (queues.flatten.map some) := by
+      (rows.map parse).Perm (queues.flatten.map (fun j => some (norm j))) := by
   have hw : ∀ r ∈ queues.flatten, Writable N sink.format r := by
     intro r _; rw [hf]; exact writable_json N true r
   obtain ⟨t, hfile, hperm, _⟩ :=
     file_holds_one_record_per_written_response N persist sink queues schedule hp hw
   rw [done_flatten_nil _ hdone, List.append_nil] at hperm
   refine ⟨t.map (rowOf N sink.format), by rw [hfile]; simp [recordOf], ?_⟩
-  have : (t.map (rowOf N sink.format)).map parse = t.map some := by
+  have : (t.map (rowOf N sink.format)).map parse = t.map (fun j => some (norm j)) := by
     simp only [List.map_map]
     apply List.map_congr_left
-    intro r _
-    simp [rowOf, hf, formatResponse, hparse]
+    intro r hr
+    have := hparse r (hperm.subset hr)
+    simpa [rowOf, hf, formatResponse] using this
   rw [this]
   exact hperm.map _
+
+/-- instantiated with the proved reader: no assumption left on the model side (what remains trusted is that
+`serde_json::from_str` agrees with it, which the harness checks on every generated record) -/
+theorem json_lines_read_back (N : NumOps) (persist : Bool) (sink : FileSink) (queues : List (List Json))
+    (schedule : List Nat) (hp : sink.poisoned = false) (hf : sink.format = .json true)
+    (hnum : ∀ r ∈ queues.flatten, numsOk r = true)
+    (hdone : ((Run.init sink queues).exec N persist schedule).done = true) :
+    ∃ rows : List (List Char),
+      ((Run.init sink queues).exec N persist schedule).sink.file = sink.file ++ rows.map record ∧
+      (rows.map SinkRead.parse).Perm (queues.flatten.map (fun j => some (SinkRead.eraseBits j))) :=
+  json_lines_parse_back N persist sink queues schedule hp hf SinkRead.parse SinkRead.eraseBits
+    (fun j hj => SinkRead.parse_compact j (hnum j hj)) hdone
+
+example : SinkRead.parse (compact (.obj [("error", .str "no \"path\"\n"), ("n", .arr [.num "-1.5e+3" 0, .null])]))
+    = some (.obj [("error", .str "no \"path\"\n"), ("n", .arr [.num "-1.5e+3" 0, .null])]) :=
+  SinkRead.parse_compact _ (by decide)
 
 /-! ## 8. What the non-newline-delimited JSON form does (outside the property, recorded) -/
 
